@@ -297,7 +297,8 @@ def apply_contract(ip: Interp, con: Contract, fn, args, kwargs, bound_cls) -> SV
     elif con.ret is not None:
         res = fresh_result(ip, con)
     else:
-        res = NONE
+        # no declared result type: an arbitrary value, constrained only by the postconditions
+        res = SV('val', st.fresh('res', Val), T=('any',))
     # 5. postconditions are assumed
     if con.ensures:
         saved = ip.old_heap
@@ -315,18 +316,15 @@ def apply_contract(ip: Interp, con: Contract, fn, args, kwargs, bound_cls) -> SV
 def fresh_result(ip: Interp, con: Contract) -> SV:
     st = ip.st
     T = parse_type(con.ret)
-    st.fresh_n += 1
-    nm = f'res!{st.fresh_n}'
     if T[0] == 'none':
         return NONE
     if T[0] == 'str':
-        return mk_str(z3.String(nm))
+        return mk_str(st.fresh('res', S))
     if T[0] == 'bool':
-        return mk_bool(z3.Bool(nm))
+        return mk_bool(st.fresh('res', B))
     if T[0] == 'int':
-        return mk_int(z3.Int(nm))
-    v = z3.Const(nm, Val)
-    return ip.unbox(v, T)
+        return mk_int(st.fresh('res', I))
+    return ip.unbox(st.fresh('res', Val), T)
 
 
 def eval_modifies(ip: Interp, con: Contract, locs) -> List[Loc]:
@@ -511,6 +509,9 @@ def verify_function(target: str, only: Optional[str] = None, timeout_ms: Optiona
         shared = {'inlined': set(), 'contracts_used': set(), 'paths': 0, 'prune_checks': 0}
         if bound is not None:
             shared['bound'] = bound
+            shared['deadline'] = time.time() + 60
+        else:
+            shared['deadline'] = time.time() + 240
         ip = Interp(reg, st, PathCtl(), shared)
         ip.top_target = target
         params = make_params(ip, con, fn)
@@ -595,8 +596,13 @@ def verify_function(target: str, only: Optional[str] = None, timeout_ms: Optiona
                 obligations.append(Obligation('engine.exit', [], None, pi, note=f'unexpected exit {out[0]}'))
         res.inlined = sorted(shared['inlined'] - {target})
         res.contracts_used = sorted(shared['contracts_used'])
-        comp_lemmas = congruence_lemmas(ip, shared)
-        discharge(res, obligations, timeout_ms or con.timeout_ms, only, comp_lemmas, small_scope=bound is not None)
+        lemma_box = {}
+
+        def lemmas_thunk():
+            if 'v' not in lemma_box:
+                lemma_box['v'] = congruence_lemmas(ip, shared)
+            return lemma_box['v']
+        discharge(res, obligations, timeout_ms or con.timeout_ms, only, lemmas_thunk, small_scope=bound is not None)
     except Unsupported as u:
         res.unsupported = str(u)
     except Exception:
@@ -628,7 +634,9 @@ def subclauses(sub: Interp, f, argvals) -> List[Tuple[str, List[Any], Any]]:
         if o[0] == 'ok':
             out.append((tag, list(s2.st.pc), o[1]))
         elif o[0] == 'raise':
-            raise o[1]
+            # the clause is undefined on this path: it counts as false there (discharged iff the
+            # path is infeasible)
+            out.append((tag, list(s2.st.pc), z3.BoolVal(False)))
         else:
             raise Unsupported('contract clause exits abnormally')
     return out
@@ -656,7 +664,7 @@ def congruence_lemmas(ip: Interp, shared) -> List[Any]:
             K = ca.K
             cb_cond = z3.substitute(cb.cond, (cb.K, K))
             cb_val = z3.substitute(cb.val.e, (cb.K, K))
-            s = mk_solver(3000)
+            s = mk_solver(800)
             rng = z3.And(0 <= K, K < ca.length)
             s.add(rng)
             s.add(z3.Not(z3.And(ca.cond == cb_cond, z3.Implies(ca.cond, ca.val.e == cb_val))))
@@ -842,10 +850,17 @@ def discharge(res: FnResult, obligations: List[Obligation], timeout_ms: int, onl
             t1 = time.time()
             s = mk_solver(timeout_ms)
             s.add(*ob.pc)
-            s.add(*lemmas)
             s.add(z3.Not(ob.goal))
             r = s.check()
             res.nqueries += 1
+            if r != z3.unsat:
+                # Map/Join congruence lemmas are computed lazily, only when something is left open
+                if callable(lemmas):
+                    lemmas = lemmas()
+                if lemmas:
+                    s.add(*lemmas)
+                    r = s.check()
+                    res.nqueries += 1
             if r == z3.unknown:
                 seeds = seed_terms(list(ob.pc) + [ob.goal])
                 if seeds:
@@ -858,7 +873,7 @@ def discharge(res: FnResult, obligations: List[Obligation], timeout_ms: int, onl
                 s2 = z3.Solver()
                 s2.set('timeout', min(timeout_ms, 5000))
                 s2.add(*ob.pc)
-                s2.add(*lemmas)
+                s2.add(*(lemmas if not callable(lemmas) else []))
                 s2.add(z3.Not(ob.goal))
                 r2 = s2.check()
                 res.nqueries += 1
@@ -877,6 +892,8 @@ def discharge(res: FnResult, obligations: List[Obligation], timeout_ms: int, onl
             if verdict != 'refuted':
                 verdict = 'undecided'
                 detail = f'path {ob.path}: solver answered unknown ({s.reason_unknown()})' + (f' ({ob.note})' if ob.note else '')
+                if not small_scope:
+                    break    # one open instance settles the group's verdict; do not burn time on the rest
         res.clauses[name] = {'verdict': verdict, 'instances': len(obs), 'detail': detail, 'cex': cex}
     res.solver_s = round(t_solver, 3)
 
